@@ -153,7 +153,7 @@ func VP_C19_download_template() {
 }
 
 //vp:property C19
-//vp:set s 2 3
+//vp:set s 3 8
 //vp:bounds host selection "any": the host query parameter is an ARBITRARY ASCII string of 1..s bytes (CR, LF, blanks, colons included); the session's user name (from the identity provider) an arbitrary ASCII string of 1..2 bytes; no template, no domain splitting
 //vp:assume ASCII; real RDP builder (fatih/structs answered from the static types); a request whose host or user name does not fit on a line may be refused (400/500) — a file that IS served must be well-formed and read back as what the builder held
 //vp:reach served refused
